@@ -101,6 +101,35 @@ package main
 //@   oncall Copy: requires $sought && $skErr == nil && !$catDone && opt.length <= 0
 //@   ensures r0 == nil ==> $catDone
 
+//# verify-index: the answer is VerifyIndex's answer for the index read from the first argument and the file
+//# named by the second; an index that could not be read is an error
+//@ ghost var $vixc []desync.IndexChunk
+//@ ghost var $vixErr error
+//@ ghost var $vres error
+//@ func runVerifyIndex
+//@   prop C17
+//@   safety none
+//# (the concurrency option is positive and offsets are below 2^62: user input / file contents, assumed)
+//@   assume@entry opt.n >= 1
+//@   assume@before:VerifyIndex offsetsBounded(idx.Chunks)
+//@   ghost@after:readCaibxFile $vixc = $r0.Chunks
+//@   ghost@after:readCaibxFile $vixErr = $r1
+//@   ghost@after:VerifyIndex $vres = $r0
+//@   oncall VerifyIndex: requires $vixErr == nil && $arg2.Chunks == $vixc && $arg3 == opt.n
+//@   ghost@entry $sought = false
+//@   ghost@after:VerifyIndex $sought = true
+//@   ensures r0 == nil ==> $sought && $vres == nil
+
+//# untar: a local target is written through a LocalFS built from this command's options (ownership, xattr and
+//# permission switches as given); an archive read through an index is unpacked from that index and the stores given
+//@ func runUntar
+//@   prop C05 C18
+//@   safety none
+//@   requires $consumed >= 0
+//@   assume@entry opt.n >= 1
+//@   oncall NewLocalFS: requires $arg1 == opt.LocalFSOptions
+//@   oncall UnTarIndex: requires $arg4 == opt.n
+
 // ---------------------------------------------------------------------------- C15
 
 //# chunk-server: the handler serving the store is built with the writable, --skip-verify-write and
